@@ -11,7 +11,7 @@ use std::path::{Path, PathBuf};
 use std::time::Instant;
 
 fn components() -> Vec<String> {
-    vec!["..".into(), ".".into(), "".into(), "zq_a".into(), "zq_b".into(), "zq_é☠".into(), "..zq".into(), "...".into(), "n".repeat(255), "n".repeat(300)]
+    vec!["..".into(), ".".into(), "".into(), "zq_a".into(), "zq_b".into(), "zq_é☠".into(), "..zq".into(), "...".into(), "zq_a\\..\\zq_b".into(), "..\\zq_c".into(), "n".repeat(255), "n".repeat(300)]
 }
 
 #[derive(Clone, Debug, PartialEq, Eq, PartialOrd, Ord)]
@@ -348,7 +348,7 @@ fn runs(thorough: bool) -> (Vec<Run>, Value) {
     }
     let bounds = json!({
         "names": names.len(),
-        "grammar": "c1/.../ck, k <= 3 (thorough 4), components {.., ., empty, zq_a, zq_b, unicode, '..zq' and '...' (ordinary names that merely start with dots), 255 x n, 300 x n}, with/without leading and trailing '/'",
+        "grammar": "c1/.../ck, k <= 3 (thorough 4), components {.., ., empty, zq_a, zq_b, unicode, '..zq', '...', 'zq_a\\..\\zq_b' and '..\\zq_c' (ordinary single components on this platform: dots or backslashes inside a name are not path syntax), 255 x n, 300 x n}, with/without leading and trailing '/'",
         "classes": by.iter().map(|(k, v)| (format!("{k:?}"), v.len())).collect::<BTreeMap<_, _>>(),
         "archives": groups.len(),
         "forms": "whole archive (linear), --glob '*', a listed name, --glob with the exact name; output dir argument relative / absolute / trailing slash / ./relative; output tree absent or pre-existing with a directory symlink leaving the output directory",
